@@ -17,6 +17,7 @@ theorem operandOKB_sound (o : Operand) (h : operandOKB o = true) : operandOK o :
   cases o with
   | loc i => exact identOKB_sound i h
   | const c => exact h
+  | glob n => simp [operandOKB] at h; intro e; subst e; simp at h
 
 theorem argOKB_sound (a : Arg) (h : argOKB a = true) : argOK a := by
   cases a with
@@ -87,6 +88,20 @@ theorem matchesB_sound : ∀ (fs : List Slot) (as : List Arg), matchesB fs as = 
     cases as with
     | nil => simp [matchesB] at h
     | cons a as => cases a <;> first | exact .tyvals _ (matchesB_sound fs as (by simpa [matchesB] using h)) | simp [matchesB] at h
+  | .cargs :: fs, as, h => by
+    cases as with
+    | nil => simp [matchesB] at h
+    | cons a as => cases a <;> first | exact .cargs _ (matchesB_sound fs as (by simpa [matchesB] using h)) | simp [matchesB] at h
+  | .callee :: fs, as, h => by
+    cases as with
+    | nil => simp [matchesB] at h
+    | cons a as =>
+      cases a with
+      | val o =>
+        simp only [matchesB, Bool.and_eq_true] at h
+        refine .callee o ?_ (matchesB_sound fs as h.2)
+        cases o <;> simp_all [isRef]
+      | _ => simp [matchesB] at h
 
 theorem instOKB_sound (i : Inst) (h : instOKB i = true) : instOK i := by
   unfold instOKB at h
@@ -94,8 +109,8 @@ theorem instOKB_sound (i : Inst) (h : instOKB i = true) : instOK i := by
   | none => simp [hr] at h
   | some r =>
     simp only [hr, Bool.and_eq_true, List.all_eq_true, beq_iff_eq] at h
-    obtain ⟨⟨⟨hm, ha⟩, hres⟩, hid⟩ := h
-    refine ⟨r, hr, matchesB_sound _ _ hm, fun a ha' => argOKB_sound a (ha a ha'), hres, ?_⟩
+    obtain ⟨⟨⟨⟨hm, ha⟩, hres⟩, hid⟩, hcall⟩ := h
+    refine ⟨r, hr, matchesB_sound _ _ hm, fun a ha' => argOKB_sound a (ha a ha'), hres, ?_, hcall⟩
     intro id hid'
     cases hres' : i.res with
     | none => simp [hres'] at hid'
@@ -132,7 +147,30 @@ theorem map_id_of_forall {α : Type} (g : α → α) : ∀ (l : List α), (∀ x
   | [], _ => rfl
   | x :: xs, h => by simp [h x (by simp), map_id_of_forall g xs (fun y hy => h y (by simp [hy]))]
 
-theorem retypeArg_id (e : List (Ident × Ty)) (a : Arg) (h : consistentArg e a = true) : retypeArg e a = a := by
+theorem retypeOperand_id (ge : GEnv) (e : List (Ident × Ty)) (t : Ty) (o : Operand) (h : consistentOp ge e t o = true) :
+    retypeOperand ge e t o = t := by
+  cases o with
+  | const c => rfl
+  | loc i =>
+    simp only [consistentOp] at h
+    simp only [retypeOperand]
+    cases hl : lookup e i with
+    | none => simp
+    | some t' =>
+      rw [hl] at h
+      have := (Props.C16.equal_iff_eq t' t).mp h
+      simp [this]
+  | glob n =>
+    simp only [consistentOp] at h
+    simp only [retypeOperand]
+    cases hl : lookupG ge n with
+    | none => simp
+    | some t' =>
+      rw [hl] at h
+      have := (Props.C16.equal_iff_eq t' t).mp h
+      simp [this]
+
+theorem retypeArg_id (ge : GEnv) (e : List (Ident × Ty)) (a : Arg) (h : consistentArg ge e a = true) : retypeArg ge e a = a := by
   cases a with
   | ty t => rfl
   | val o => rfl
@@ -147,65 +185,36 @@ theorem retypeArg_id (e : List (Ident × Ty)) (a : Arg) (h : consistentArg e a =
     apply map_id_of_forall
     intro p hp
     obtain ⟨t, o⟩ := p
-    cases o with
-    | const c => rfl
-    | loc i =>
-      have hh := h (t, .loc i) hp
-      simp only at hh
-      simp only [retypeOperand]
-      cases hl : lookup e i with
-      | none => simp
-      | some t' =>
-        rw [hl] at hh
-        have := (Props.C16.equal_iff_eq t' t).mp hh
-        simp [this]
+    simp only [retypeOperand_id ge e t o (h (t, o) hp)]
   | tyval t o =>
-    cases o with
-    | const c => rfl
-    | loc i =>
-      simp only [consistentArg] at h
-      simp only [retypeArg, retypeOperand]
-      cases hl : lookup e i with
-      | none => simp
-      | some t' =>
-        rw [hl] at h
-        have := (Props.C16.equal_iff_eq t' t).mp h
-        simp [this]
+    simp only [consistentArg] at h
+    simp only [retypeArg, retypeOperand_id ge e t o h]
   | retv v =>
     cases v with
     | none => rfl
     | some p =>
       obtain ⟨t, o⟩ := p
-      cases o with
-      | const c => rfl
-      | loc i =>
-        simp only [consistentArg] at h
-        simp only [retypeArg, retypeOperand]
-        cases hl : lookup e i with
-        | none => simp
-        | some t' =>
-          rw [hl] at h
-          have := (Props.C16.equal_iff_eq t' t).mp h
-          simp [this]
+      simp only [consistentArg] at h
+      simp only [retypeArg, retypeOperand_id ge e t o h]
 
-theorem retypeInst_id (e : List (Ident × Ty)) (i : Inst) (h : i.args.all (consistentArg e) = true) : retypeInst e i = i := by
+theorem retypeInst_id (ge : GEnv) (e : List (Ident × Ty)) (i : Inst) (h : i.args.all (consistentArg ge e) = true) : retypeInst ge e i = i := by
   unfold retypeInst
-  rw [map_id_of_forall (retypeArg e) i.args (fun a ha => retypeArg_id e a (List.all_eq_true.mp h a ha))]
+  rw [map_id_of_forall (retypeArg ge e) i.args (fun a ha => retypeArg_id ge e a (List.all_eq_true.mp h a ha))]
 
-theorem retype_id (f : Func) (h : consistent f = true) : retype f = f := by
-  unfold retype
+theorem retype_id (ge : GEnv) (f : Func) (h : consistent ge f = true) : retypeIn ge f = f := by
+  unfold retypeIn
   simp only [consistent, List.all_eq_true] at h
-  have : f.blocks.map (fun b => { b with insts := b.insts.map (retypeInst (env f)), term := retypeInst (env f) b.term }) = f.blocks := by
+  have : f.blocks.map (fun b => { b with insts := b.insts.map (retypeInst ge (env f)), term := retypeInst ge (env f) b.term }) = f.blocks := by
     apply map_id_of_forall
     intro b hb
     have hb' := h b hb
-    have hi : b.insts.map (retypeInst (env f)) = b.insts :=
-      map_id_of_forall _ _ (fun i hi => retypeInst_id _ i (by
+    have hi : b.insts.map (retypeInst ge (env f)) = b.insts :=
+      map_id_of_forall _ _ (fun i hi => retypeInst_id _ _ i (by
         have := hb' i (by simp [instsOf, hi]); rw [List.all_eq_true]; exact this))
-    have ht : retypeInst (env f) b.term = b.term := retypeInst_id _ _ (by
+    have ht : retypeInst ge (env f) b.term = b.term := retypeInst_id _ _ _ (by
       have := hb' b.term (by simp [instsOf]); rw [List.all_eq_true]; exact this)
     rw [hi, ht]
-  show { f with blocks := f.blocks.map (fun b => { b with insts := b.insts.map (retypeInst (env f)), term := retypeInst (env f) b.term }) } = f
+  show { f with blocks := f.blocks.map (fun b => { b with insts := b.insts.map (retypeInst ge (env f)), term := retypeInst ge (env f) b.term }) } = f
   rw [this]
 
 /-! a well-formed function has no nameless definition: numbering leaves it as it is -/
@@ -244,7 +253,7 @@ theorem instOKB_res (i : Inst) (h : instOKB i = true) : ∀ id ∈ i.res, identO
     simp only [hr, Bool.and_eq_true] at h
     cases hres : i.res with
     | none => simp [hres] at hid
-    | some id' => simp [hres] at hid h; subst hid; exact h.2
+    | some id' => simp [hres] at hid h; subst hid; exact h.1.2
 
 theorem fillBlocks_id : ∀ (bs : List Block) (l : List Numbering.Slot), (∀ b ∈ bs, blockOKB b = true) → fillBlocks bs l = bs
   | [], _, _ => rfl
@@ -264,13 +273,16 @@ theorem fill_id (f : Func) (l : List Numbering.Slot) (h : wfSyn f = true) : fill
   unfold fill
   simp only [fillParams_id f.params l hp, fillBlocks_id f.blocks _ hb]
 
-theorem translate_wf (f : Func) (hs : wfSyn f = true) (h : wfSem f = true) : translate f = some f := by
-  simp only [wfSem, Bool.and_eq_true, Bool.not_eq_true'] at h
-  obtain ⟨⟨⟨⟨⟨hd, hu⟩, hl⟩, hn⟩, hc⟩, ht⟩ := h
-  unfold translate
+theorem translateIn_wf (ge : GEnv) (f : Func) (hs : wfSyn f = true) (h : wfSemIn ge f = true) : translateIn ge f = some f := by
+  simp only [wfSemIn, Bool.and_eq_true, Bool.not_eq_true'] at h
+  obtain ⟨⟨⟨⟨⟨⟨⟨hd, hu⟩, hl⟩, hn⟩, hc⟩, ht⟩, hg⟩, hcalls⟩ := h
+  unfold translateIn
   have hp := Props.C08.parser_accepts_exactly_llvm (slotsOf f) 0
   unfold parseAssign
   rw [hp]
-  simp only [hn, if_true, fill_id f _ hs, hd, Bool.false_eq_true, if_false, hu, hl, ht, Bool.and_self, retype_id f hc]
+  simp only [hn, if_true, fill_id f _ hs, hd, Bool.false_eq_true, if_false, hu, hl, ht, hg, hcalls, Bool.and_self, retype_id ge f hc]
+
+theorem translate_wf (f : Func) (hs : wfSyn f = true) (h : wfSem f = true) : translate f = some f :=
+  translateIn_wf (selfEnv f) f hs h
 
 end Llir.Core3
